@@ -556,6 +556,10 @@ func ruleSINK1(c *Ctx) {
 						guarded = true
 					}
 				}
+				// or the else branch of `if f.nameNeedEscape { ... }`
+				if ifs, ok := par.(*ast.IfStmt); ok && ifs.Else == x && SelField(info, ast.Unparen(ifs.Cond)) == ne {
+					guarded = true
+				}
 				x = par
 			}
 			c.Oblige("quotedName-guard:"+f.Name, call.Pos(), guarded, "pre-quoted member name appended without the !nameNeedEscape guard")
@@ -643,6 +647,10 @@ func sinkProducers(p *Program, f *FuncInfo, cb ast.Expr) []string {
 			if v := IdentObj(info, call.Fun); v != nil && encoderVar(p, f, v) {
 				return true
 			}
+			// or a func-typed struct field that only ever holds those encoders (`codec.appendEncode`)
+			if fld := SelField(info, call.Fun); fld != nil && encoderField(p, f, fld) {
+				return true
+			}
 			name = "dynamic " + exprString(call.Fun)
 		}
 		if !seen[name] {
@@ -703,6 +711,53 @@ func encoderVar(p *Program, f *FuncInfo, v types.Object) bool {
 		}
 	}
 	return true
+}
+
+// encoderField: every value stored into the func-typed field fld (keyed or positional composite literal,
+// assignment) in package json is one of the package-level appendEncode* encoders.
+func encoderField(p *Program, f *FuncInfo, fld *types.Var) bool {
+	pk := p.Pkg("json")
+	if pk == nil {
+		return false
+	}
+	n, ok := 0, true
+	check := func(e ast.Expr) {
+		n++
+		o := IdentObj(pk.TypesInfo, e)
+		if o == nil || !encoderVar(p, f, o) {
+			ok = false
+		}
+	}
+	for _, file := range pk.Syntax {
+		ast.Inspect(file, func(nd ast.Node) bool {
+			switch x := nd.(type) {
+			case *ast.CompositeLit:
+				st, isSt := pk.TypesInfo.TypeOf(x).Underlying().(*types.Struct)
+				if !isSt {
+					return true
+				}
+				for i, e := range x.Elts {
+					if kv, isKV := e.(*ast.KeyValueExpr); isKV {
+						if id, isId := kv.Key.(*ast.Ident); isId && pk.TypesInfo.Uses[id] == fld {
+							check(kv.Value)
+						}
+					} else if i < st.NumFields() && st.Field(i) == fld {
+						check(e)
+					}
+				}
+			case *ast.AssignStmt:
+				if len(x.Lhs) == len(x.Rhs) {
+					for i, l := range x.Lhs {
+						if SelField(pk.TypesInfo, l) == fld {
+							check(x.Rhs[i])
+						}
+					}
+				}
+			}
+			return true
+		})
+	}
+	return n > 0 && ok
 }
 
 func init() {
